@@ -210,18 +210,22 @@ def check_2d(ctx, s1, p1, s2, p2, rng, stats):
     xa = np.array(x1)
     for xb in (np.array([x2[len(x2) // 2]]), np.array([x2[1], x2[1] + 1e-3 * (x2[2] - x2[1])]), np.array(rng.sample(list(x2), len(x2)))):
         qb = [min(max(so.to_int_coord(x, -1.0, 2.0), Fr(s2.br[0])), Fr(s2.br[-1])) for x in xb]
-        B1 = np.array([[float(s1.basis(i, x, 0)) for i in range(s1.nb)] for x in q1])
-        B2 = np.array([[float(s2.basis(j, x, 0)) for j in range(s2.nb)] for x in qb])
-        want = B1 @ c @ B2.T
-        g1 = S.eval(xa.copy(), xb.copy())
-        g3 = np.full((len(xa), len(xb)), np.nan)
-        S.eval_vector(xa.copy(), xb.copy(), g3)
-        for ep, g in (("Spline2D.eval(grid)", g1), ("Spline2D.eval_vector", g3)):
-            err = float(np.max(np.abs(g - want)))
-            if not err <= 1e-9 * max(1.0, float(np.max(np.abs(c)))) * 40:
-                ctx.violation({"kind": "value-2d", "entry": ep.split("(")[0], "der": [0, 0], "path": "cu" if b1.cubic_uniform else "general", "x2": "degenerate-or-unsorted"},
-                              "%s on a grid with %d x2 point(s) %s differs from the exact tensor-product value by %g; spaces %s x %s" % (
-                                  ep, len(xb), xb.tolist(), err, s1.key(), s2.key()), {"spaces": [s1.key(), s2.key()], "x2": xb.tolist()})
+        for (d1, d2) in ((0, 0), (0, 1), (1, 0), (1, 1)):
+            if (d1 and s1.p == 1) or (d2 and s2.p == 1):
+                continue
+            B1 = np.array([[float(s1.basis(i, x, d1)) for i in range(s1.nb)] for x in q1]) * (1 / 0.25) ** d1
+            B2 = np.array([[float(s2.basis(j, x, d2)) for j in range(s2.nb)] for x in qb]) * (1 / 2.0) ** d2
+            want = B1 @ c @ B2.T
+            g1 = S.eval(xa.copy(), xb.copy(), d1, d2)
+            g3 = np.full((len(xa), len(xb)), np.nan)
+            S.eval_vector(xa.copy(), xb.copy(), g3, d1, d2)
+            stats["evals"] += 2 * want.size
+            for ep, g in (("Spline2D.eval(grid)", g1), ("Spline2D.eval_vector", g3)):
+                err = float(np.max(np.abs(g - want)))
+                if not err <= 1e-9 * max(1.0, float(np.max(np.abs(c)))) * 40:
+                    ctx.violation({"kind": "value-2d", "entry": ep.split("(")[0], "der": [d1, d2], "path": "cu" if b1.cubic_uniform else "general", "x2": "degenerate-or-unsorted"},
+                                  "%s (der %d,%d) on a grid with %d x2 point(s) %s differs from the exact tensor-product value by %g; spaces %s x %s" % (
+                                      ep, d1, d2, len(xb), xb.tolist(), err, s1.key(), s2.key()), {"spaces": [s1.key(), s2.key()], "x2": xb.tolist(), "der": [d1, d2]})
     ctx.count(("2d", s1.key(), p1, s2.key(), p2))
 
 
@@ -292,9 +296,13 @@ def run(ctx):
         for (s, periodic) in variants(sp):
             check_space(ctx, s, periodic, rng, quick, stats)
     pool = [v for s in todo if s.p <= 5 and s.ncells >= 2 for v in variants(s)]
-    for _ in range(25 if quick else 200):
-        (s1, p1), (s2, p2) = rng.choice(pool), rng.choice(pool)
-        check_2d(ctx, s1, p1, s2, p2, rng, stats)
+    cu_pool = [v for v in pool if v[0].kind == "cu"]
+    ge_pool = [v for v in pool if v[0].kind != "cu"]
+    # stratified: the fast path is only taken when BOTH directions are uniform cubic, so draw such pairs explicitly
+    for pl, n in ((ge_pool, 20 if quick else 150), (cu_pool, 12 if quick else 100)):
+        for _ in range(n if pl else 0):
+            (s1, p1), (s2, p2) = rng.choice(pl), rng.choice(pl)
+            check_2d(ctx, s1, p1, s2, p2, rng, stats)
     same_function_cu_general(ctx, spaces, rng)
     ctx.extra["spaces_in_table"] = len(spaces) + len(hi)
     ctx.extra["spaces_replayed"] = len(todo) + len(hi)
